@@ -69,6 +69,9 @@ def _register_decode_glue():
             ctx.prove("post.one_instruction_per_parsed_tuple_in_order", z3.BoolVal(len(flat) == 2 and flat[0].name == T["opname"][op0] and flat[1].name == T["opname"][opj]))
             ctx.prove("post.line_number_is_the_line_of_the_first_unit", z3.BoolVal(flat[0].line_number == 10 and flat[1].line_number == 11))
             ctx.prove("post.extra_line_entries_attached_to_their_instruction", z3.BoolVal(flat[1]._line_offsets_override == (0, 5) and flat[0]._line_offsets_override == ()))
+            ctx.prove("post.private_fields_of_decoded_instructions_are_immutable_values(C08: hashable, no state shared with the line mapping)",
+                      z3.BoolVal(all(type(i._line_offsets_override) is tuple and (i._n_args_override is None or type(i._n_args_override) is int) for i in flat)),
+                      detail=repr([type(i._line_offsets_override).__name__ for i in flat]))
             ctx.prove("post.line_mapping_consumed_for_every_unit_of_every_instruction", z3.BoolVal(lm.offset_to_line == {} and lm.offset_to_additional_line_offsets == {}))
             if second != "const":
                 ctx.prove("post.n_args_recorded_only_for_jumps_with_prefixes", z3.BoolVal(flat[1]._n_args_override == (n_args if n_args > 1 else None) and flat[0]._n_args_override is None))
@@ -79,7 +82,7 @@ def _register_decode_glue():
             ctx.prove("post.additional_args_list_every_table_entry_no_instruction_used", z3.BoolVal(
                 [type(a).__name__ for a in additional] == ["Name"] * 1 + ["Varname"] * (1 if tp else 6) + ["Cellvar"] + ["Constant"] * (1 if doc is not None else 2)),
                 detail=repr(additional))
-        harness("blocks.bytes_to_blocks.call_sites[%s,units=%d,%s]" % (kind, n_args, second), props=["C02", "C13", "C09", "C01", "C10"],
+        harness("blocks.bytes_to_blocks.call_sites[%s,units=%d,%s]" % (kind, n_args, second), props=["C02", "C13", "C09", "C01", "C10", "C08"],
                 functions=["code_data._blocks.bytes_to_blocks"], configs="all",
                 assumes=["callee contracts: _parse_bytes, to_arg (discharged on the real callees)"],
                 notes="modular: _parse_bytes and to_arg are stubs carrying their contracts; the caller passes opcode/arg/next_offset and the five tables in order, seeds parameters and the "
